@@ -96,6 +96,9 @@ def gen_program(rng, k, ensembles=("canonical", "hamiltonian", "isobaric", "isot
     # the user may prepare the system AFTER building the simulation object and before the first run (validate_simulation re-reads it):
     # drawn from a separate stream so that the programs themselves are unchanged
     r2 = random.Random(p["seed"] ^ 0x5EED)
+    for lf in leaves:
+        if lf["kind"] == "cell" and r2.random() < 0.3:
+            lf["amp"] = r2.choice([5e-6, 2e-7, 1e-9])        # fine-tuning strains: a rejected one must be undone like any other
     if r2.random() < 0.3:
         p["pre_run_edit"] = {"shift": [r2.choice([-0.25, 0.125, 0.5]), 0.0, r2.choice([0.0, 0.375])], "atom": r2.randrange(n)}
         if ens in ("isobaric", "isotension") and r2.random() < 0.7:
